@@ -287,6 +287,19 @@ def specific_gravity_spec(sg=0.8):
     return s
 
 
+def prv_open_spec(vtype="PRV"):
+    """seeded/C05-6: a PRV/PSV that a simple control commands OPEN while the head downstream is higher than upstream (reverse flow):
+    its own regulating logic writes _internal_status Closed, the commanded OPEN must still be reported (Valve.status: fixed status wins)"""
+    s = _base(3600, 3)
+    s["reservoirs"] += [{"name": "RL", "head": 20.0}, {"name": "RH", "head": 30.0}]
+    s["junctions"] += [{"name": "J1", "elev": 0.0, "demand": 0.0, "pattern": None}, {"name": "J2", "elev": 0.0, "demand": 0.0, "pattern": None}]
+    s["pipes"] += [{"name": "P1", "start": "RL", "end": "J1", "length": 100.0, "diam": 0.3, "rough": 100.0, "cv": False, "status": "OPEN"},
+                   {"name": "P2", "start": "J2", "end": "RH", "length": 100.0, "diam": 0.3, "rough": 100.0, "cv": False, "status": "OPEN"}]
+    s["valves"].append({"name": "V", "start": "J1", "end": "J2", "diam": 0.3, "type": vtype, "setting": 10.0, "minor_loss": 0.0})
+    s["controls"].append({"name": "open", "src": "J1", "attr": "pressure", "rel": "ge", "thr": -5.0, "link": "V", "value": "OPEN", "prio": 3})
+    return s
+
+
 def rule_level_spec(simple_too=True):
     """a RULE with a tank-level premise, rule timestep (360 s) shorter than the hydraulic step: the rule fires at the first rule
     instant after the crossing; optionally a simple level control on the same tank whose partial step interleaves with the rule grid"""
